@@ -82,6 +82,7 @@ type Goroutine struct {
 	fn      string
 	atomic  int
 	frames  int
+	vc      vclock
 }
 
 type Chan struct {
@@ -110,6 +111,7 @@ type runtimeState struct {
 	forward  interface{} // engine panic raised in a non-main goroutine
 	nextChan int
 	preemptions int
+	race *raceState
 	fires int
 	running int32
 	log []string
@@ -168,6 +170,11 @@ func (rt *runtimeState) spawn(fr *frame, fn Value, args []Value) {
 		ex.boundExceeded("more than 24 goroutines")
 	}
 	rt.gs = append(rt.gs, g)
+	if fr != nil && !ex.cfg.NoRaceCheck {
+		rt.hbFork(fr.gor(), g)
+	} else if !ex.cfg.NoRaceCheck {
+		rt.hbFork(rt.cur, g)
+	}
 	rt.live++
 	go func() {
 		defer func() { rt.exited <- struct{}{} }()
@@ -517,6 +524,14 @@ func (rt *runtimeState) visible(g *Goroutine, p *pendingOp) {
 	}
 	g.pending = p
 	rt.reschedule(g)
+	if rt.raceOn() {
+		if p.kind == opQuiesce {
+			rt.hbJoinAll(g)
+		} else if p.kind != opStart && p.kind != opResume {
+			objs, glob := rt.footprint(p)
+			rt.hbSync(g, objs, glob)
+		}
+	}
 }
 
 func (ex *Exec) goPanicEngine(msg string) { unsupp("%s", msg) }
@@ -614,6 +629,10 @@ func (rt *runtimeState) park(g *Goroutine, p *pendingOp) {
 	g.pending = nil
 	if !p.completed {
 		panic("engine: parked goroutine resumed without completion")
+	}
+	if rt.raceOn() {
+		objs, glob := rt.footprint(p)
+		rt.hbSync(g, objs, glob)
 	}
 }
 
@@ -765,8 +784,6 @@ func (rt *runtimeState) doSelect(fr *frame, instr *ssa.Select) Value {
 	return r
 }
 
-// noteAccess is the hook for the data-race check on plain memory accesses.
-func (rt *runtimeState) noteAccess(fr *frame, a *Value, write bool) {}
 
 var schedTrace = os.Getenv("VERIF_TRACE_SCHED") != ""
 
